@@ -49,6 +49,8 @@ def run(ctx, rep):
     ordering(prog, rep, "libtw2_net::protocol7")
     reader_size_limit(prog, rep, "R4-reader-size-limit", "libtw2_net::protocol")
     reader_size_limit(prog, rep, "R4-reader-size-limit", "libtw2_net::protocol7")
+    datagram_limit(prog, rep, "R4-reader-size-limit", "libtw2_net::protocol")
+    datagram_limit(prog, rep, "R4-reader-size-limit", "libtw2_net::protocol7")
     close_reason_clamp(prog, rep)
 
 
@@ -446,6 +448,20 @@ def reader_size_limit(prog, rep, rule, mod):
                "the guard tests the payload that comes out of the decompression step" if post else
                "the guard tests `%s`, which is not the decompressed payload: a compressed packet can expand beyond the limit" % show(strip_sites(what)),
                b.loc(b.blocks[bi]["term"].get("ln")))
+
+
+def datagram_limit(prog, rep, rule, mod):
+    """The reader refuses a datagram exactly when it is longer than MAX_PACKETSIZE: the writer can fill a datagram completely
+    (C04 budget B3 is an equality for 0.6 with a token), so `>=` would refuse the library's own largest packets"""
+    from .common import exact_clauses, _txt
+    tag = mod.split("::")[-1]
+    b = prog.one(mod + "::Packet::read_impl")
+    ir = IR(b)
+    mp = prog.constv(mod + "::MAX_PACKETSIZE")
+    table = [("the datagram is longer than MAX_PACKETSIZE",
+              lambda a: a[0] == "len" and "bytes" in _txt(a),
+              lambda b_: b_[0] == "c" and b_[1] == mp, "Gt", 1)]
+    exact_clauses(rep, rule, tag + " read_impl", b, ir, table, floor=1)
 
 
 def close_reason_clamp(prog, rep):
